@@ -549,7 +549,7 @@ func (g *gen) faults(f *Fn) {
 	}
 	if g.pct(g.k.PFaultKind, "faultkind") {
 		f.EK = g.pick(2, "ek")
-		f.PK = g.pick(5, "pk")
+		f.PK = g.pick(6, "pk")
 	}
 }
 
@@ -926,6 +926,10 @@ func (g *gen) genDecorate(s int) (Op, bool) {
 		if g.pct(g.k.PDecoOrphan, lbl+"orphan") {
 			u := g.universe()
 			k = u[g.pick(len(u), lbl+"ok")]
+			if !g.k.NoGroups && len(g.k.Groups) > 0 && g.pct(35, lbl+"orphangrp") {
+				// a group that nothing feeds (perhaps nothing consumes either)
+				k = MKey{T: g.randType(lbl + "ogt"), Group: g.pickStr(g.k.Groups, lbl+"ogn")}
+			}
 		} else if len(groups) > 0 && (len(singles) == 0 || g.pct(g.k.PDecoGroup, lbl+"grp")) {
 			k = groups[g.pick(len(groups), lbl+"gk")]
 		} else if len(singles) > 0 {
@@ -1169,11 +1173,19 @@ func (g *gen) focusOn(op Op) {
 		}
 	}
 	// declared hostile In/Out structs: the keys their fields would stand for
-	for _, r := range op.F.R {
-		if strings.HasPrefix(r.Host, "HOutUnexp") {
-			g.focus = append(g.focus, MKey{T: "T1"}, MKey{T: "T0", Group: "g"}, MKey{T: "T0", Name: "a"})
+	var walkR func(rs []Result)
+	walkR = func(rs []Result) {
+		for _, r := range rs {
+			if strings.HasPrefix(r.Host, "HOutUnexp") {
+				g.focus = append(g.focus, MKey{T: "T1"}, MKey{T: "T0", Group: "g"}, MKey{T: "T0", Name: "a"})
+			}
+			if strings.HasPrefix(r.Host, "sliceslice") {
+				g.focus = append(g.focus, MKey{T: "T0", Group: "g"}, MKey{T: "S0", Group: "g"}, MKey{T: "T0", Group: "h"})
+			}
+			walkR(r.Obj)
 		}
 	}
+	walkR(op.F.R)
 	for _, p := range op.F.P {
 		if strings.HasPrefix(p.Host, "HInUnexp") {
 			g.focus = append(g.focus, MKey{T: "T1"}, MKey{T: "T0", Group: "g"}, MKey{T: "T0", Name: "a"})
